@@ -296,9 +296,15 @@ func (s *Stage) Receive(file *sts.Partial, reader io.Reader) (err error) {
 	if _, err = fh.Seek(part.Beg, 0); err != nil {
 		return
 	}
-	_, err = io.Copy(fh, reader)
+	n, err := io.Copy(fh, reader)
 	fh.Close()
 	if err != nil {
+		return
+	}
+	if n != part.End-part.Beg {
+		// Don't record a range whose bytes didn't all make it
+		err = fmt.Errorf("received %d of %d bytes for part %d:%d of %s",
+			n, part.End-part.Beg, part.Beg, part.End, file.Name)
 		return
 	}
 
